@@ -81,5 +81,11 @@ theorem access_table_covers :
 theorem sk_connect : Generated.sk_proxy_proxyClient_connect = Expected.sk_proxy_proxyClient_connect := by decide
 /-- the stream id counter is only ever touched through atomic.AddUint64 -/
 theorem flag_idAllocAtomic : Generated.cfg.idAllocAtomic = true := by decide
+/-- the fields of the structs the table talks about are the ones the disciplines were written for: a field
+    that is added, moved out of its mutex-guarded group or retyped is not covered by `disciplineOf` -/
+theorem struct_census : Generated.structFields = Expected.structFields := by decide
+/-- the lock / unlock / channel / go / defer structure of every tracked function is the one the access
+    walk and the disciplines were checked against -/
+theorem all_skeletons : Generated.skeletons = Expected.skeletons := by decide
 
 end Goat.Tie.C15
